@@ -126,6 +126,12 @@ class ProcessModels(CommonModels):
                 return [(path, NONE)]
         return CommonModels.method(self, ex, path, recv, name, args, kw)
 
+    def str_method(self, ex, path, s, name, args, kw):
+        if name == 'decode' and not concrete_of(s)[0]:
+            # process output as text: only ever written to a log / an exception message
+            return [(path, VStr(ex.fresh_str(path, 'decoded')))]
+        return CommonModels.str_method(self, ex, path, s, name, args, kw)
+
     def opaque_call(self, ex, path, f, args, kw):
         if f.kind == 'progress_cb':
             self.glog_add(path, 'progress', tuple(args))
